@@ -316,7 +316,7 @@ def run_check(pid: str, tier: str, master: int, jobs: int, runs: int | None,
 
     exit_code = 0
     violation_lines = []
-    rep_dir = VERIF / "replays" / pid
+    rep_dir = Path(os.environ.get("LADSIM_REPLAY_DIR", VERIF / "replays")) / pid
     feats_fn = getattr(orc, "features", None) or (lambda sc: gen.features(sc) if "time" in sc else set())
     for rep in sorted(reports, key=lambda x: (x["tag"], x["case"]["idx"])):
         msc = rep["min"]["scenario"]
@@ -395,8 +395,9 @@ def run_check(pid: str, tier: str, master: int, jobs: int, runs: int | None,
         "wall_s": round(wall, 2),
         "violations": len(violation_lines),
     }
-    (VERIF / "evidence").mkdir(exist_ok=True)
-    (VERIF / "evidence" / f"{pid}.json").write_text(json.dumps(ev, indent=1, default=str))
+    ev_dir = Path(os.environ.get("LADSIM_EVIDENCE_DIR", VERIF / "evidence"))   # mutant runs write elsewhere
+    ev_dir.mkdir(parents=True, exist_ok=True)
+    (ev_dir / f"{pid}.json").write_text(json.dumps(ev, indent=1, default=str))
 
     # ---- harness health
     if harness_errors:
